@@ -123,9 +123,8 @@ type Op struct {
 	NaNNondet bool // result lanes may be NaNs whose payload/sign the spec leaves open
 	Vector    bool
 
-	// Lane-level description used by the operand generator.
-	// LaneIn is the width in bits of the input lanes whose cross product matters (8/16/32/64),
-	// LaneArity the number of vector operands that combine lane-wise (1 or 2, 3 for bitselect).
+	// LaneBin/LaneBits: for lane-wise binary integer instructions the lane function and width
+	// (used by the full 16-bit sweeps of check C05).
 	LaneBin  func(x, y uint64) uint64 // lane-wise binary integer ops: the lane function (zero-extended lanes)
 	LaneBits int
 }
